@@ -15,6 +15,16 @@ def judge_sec(case, impl, model, spec):
         return ("violation", r)
     return ("correspondence", "implementation differs from the model although the target section is delivered exactly once")
 
+def judge_dispatch(case, impl, model, spec):
+    r = _trace.dispatch_judge(case, impl)
+    if r:
+        return ("violation", r)
+    return ("correspondence", "implementation differs from the model although the per-packet dispatcher specification holds on its trace")
+
+def judge_chunking(case, impl, model, spec):
+    # a single line cannot show a chunking dependence; the group comparison (cross) does
+    return ("correspondence", "implementation differs from the model on this chunking")
+
 COMMON_TRUSTED = [
     "Coq 8.16.1 kernel (coqc); vm_compute for finite sweeps and case evaluation; no native_compute",
     "axioms: none (every property theorem is 'Closed under the global context')",
@@ -79,6 +89,43 @@ def r_c14(toks):
     return f"{'run_pes' if toks[0] == 'PES' else 'run_ppc'} false {hex_to_coq(toks[1])}"
 
 PROPS = {
+    "C06": dict(
+        props_files=["Props/C06.v"],
+        suites=["C06"],
+        render=r_stream,
+        judge=judge_dispatch,
+        rule="random packet sequences over 2..6 PIDs drawn from {1, 0x10, 0x11, 0x1ffe, 0x1fff} and random PIDs, runs of 1..12 "
+             "same-PID packets, 15% flagged packets (TEI, scrambling 01/10/11, both), bad sync bytes in a third of the streams, random "
+             "packet-aligned push boundaries, a quarter of the cases with scripted (change-queuing) handlers; thorough adds one packet "
+             "on each of the 8191 non-zero PIDs in both orders; distinct = distinct case lines",
+        trusted=["bin/trace.py dispatch_reference: the per-packet dispatcher specification recomputed in Python on the input (classifies disagreements only)"],
+        assumptions=["application handlers and construct() do not touch the change-set except as scripted", "PID 0 traffic (PAT semantics) is exercised by the table suites, not here"],
+    ),
+    "C18": dict(
+        props_files=["Props/C18.v"],
+        suites=["C18"],
+        render=r_stream,
+        judge=judge_dispatch,
+        rule="as C06 but every case has 1..3 scripted handlers whose n-th packet queues 0..3 insert/remove requests (any PID incl. "
+             "their own, recorder / PES / scripted replacements, repeated targets), over packet sequences with long same-PID runs; "
+             "distinct = distinct case lines",
+        trusted=["bin/trace.py dispatch_reference (folds the scripts over the table; classifies disagreements only)"],
+        assumptions=["handlers queue changes only while consuming a packet"],
+    ),
+    "C07": dict(
+        props_files=["Props/C07.v"],
+        suites=["C07"],
+        render=r_stream,
+        judge=judge_chunking,
+        cross=_trace.chunking_groups,
+        exhaustive=True,
+        rule="40 short streams (<= 9 packets; thorough 60 of <= 13), half well-formed (PAT, PMT, PES with repeats), half hostile "
+             "(bad sync, bit flips, duplicated / dropped packets), each pushed under ALL 2^(n-1) packet-aligned chunkings with empty "
+             "pushes inserted; 40 long streams under 6 random chunkings; the implementation's full call-back trace must equal that "
+             "of the single push; distinct = distinct case lines",
+        trusted=["bin/trace.py chunking_groups: implementation-vs-implementation comparison across chunkings"],
+        assumptions=["chunk boundaries are packet-aligned, as the property states"],
+    ),
     "C03": dict(
         props_files=["Props/C03.v"],
         suites=["C03"],
